@@ -243,8 +243,8 @@ macro_rules! ep_backend {
                 match c.op.as_str() {
                     "glwe" => {
                         let mut res: GLWE<Vec<u8>> = GLWE::alloc_from_infos(&out_infos);
-                        for x in res.data_mut().raw_mut().iter_mut() {
-                            *x = 0x5555;
+                        for (i, x) in res.data_mut().raw_mut().iter_mut().enumerate() {
+                            *x = crate::fillpat::pat(0x5555, i);
                         }
                         module.glwe_external_product(&mut res, a, &prep, scratch.borrow());
                         fmt_glwe(&res)
@@ -257,8 +257,8 @@ macro_rules! ep_backend {
                     }
                     "cmux" => {
                         let mut res: GLWE<Vec<u8>> = GLWE::alloc_from_infos(&out_infos);
-                        for x in res.data_mut().raw_mut().iter_mut() {
-                            *x = 0x5555;
+                        for (i, x) in res.data_mut().raw_mut().iter_mut().enumerate() {
+                            *x = crate::fillpat::pat(0x5555, i);
                         }
                         module.cmux(&mut res, a, f.unwrap(), &prep, scratch.borrow());
                         fmt_glwe(&res)
@@ -300,8 +300,8 @@ macro_rules! ep_backend {
                             let mut res: GGLWE<Vec<u8>> = GGLWE::alloc_from_infos(&res_infos);
                             for r in 0..c.dnumr {
                                 for ci in 0..rin {
-                                    for x in res.at_mut(r, ci).data_mut().raw_mut().iter_mut() {
-                                        *x = 0x5555;
+                                    for (i, x) in res.at_mut(r, ci).data_mut().raw_mut().iter_mut().enumerate() {
+                                        *x = crate::fillpat::pat(0x5555, i + 977 * (r * 16 + ci));
                                     }
                                 }
                             }
@@ -331,8 +331,8 @@ macro_rules! ep_backend {
                         let mut res: GGSW<Vec<u8>> = GGSW::alloc_from_infos(&res_infos);
                         for r in 0..c.dnumr {
                             for ci in 0..c.rank + 1 {
-                                for x in res.at_mut(r, ci).data_mut().raw_mut().iter_mut() {
-                                    *x = 0x5555;
+                                for (i, x) in res.at_mut(r, ci).data_mut().raw_mut().iter_mut().enumerate() {
+                                    *x = crate::fillpat::pat(0x5555, i + 977 * (r * 16 + ci));
                                 }
                             }
                         }
@@ -545,6 +545,7 @@ pub fn run(_args: &[String]) {
     let mut out = stdout.lock();
     for line in stdin.lock().lines() {
         let line = line.unwrap();
+        crate::fillpat::set_from_line(&line);
         let t: Vec<&str> = line.split_whitespace().collect();
         if t.is_empty() {
             continue;
